@@ -38,6 +38,17 @@ CLAIMED = {
   "semantics are modelled, not verified; assumes no tag named 'endend…'. All theorems closed under the global context.",
   "Coq proof (stack invariant by induction over token lists) + model/implementation correspondence by vm_compute",
   "DESIGN.md §6 C21"),
+ "C27": (
+  "Coq theorems: for every macro signature (unique names), every positional list and every keyword list, CallNode.macro_args (modelled "
+  "loop by loop: zip_longest/break, dict updates) computes exactly the documented binding (last keyword, else i-th positional, else default, "
+  "else undefined; surplus positionals in order; surplus keywords in first-appearance order with their last value); with: a bound name has "
+  "its last binding evaluated outside the block, other names are untouched, and after any node list the scope chain is restored. Tied to "
+  "/repo by the exhaustive sweep of the property's quantifier (0..3 params x defaults x 0..4 positional x all 0..3 keyword sequences) and "
+  "random with-nests, evaluated in Coq against sync and async renders, plus an independent reference binder/resolver.",
+  "Trusted: Coq kernel+vm_compute; harness generators/printers; Python dict order and zip_longest modelled not verified; argument values are "
+  "integers (expression evaluation itself is C14). All theorems closed under the global context.",
+  "Coq proof (induction over argument lists; dict-update lemmas) + model/implementation correspondence by vm_compute",
+  "DESIGN.md §6 C27"),
 }
 
 PENDING_REASON = "not yet built in this round (planned: DESIGN.md §6/§9); no check is claimed for it yet"
